@@ -355,7 +355,10 @@ fn gen_chain(rng: &mut Rng, tech: &str, arch: &str, os: &str) -> Option<String> 
                 exp.push(Exp { ret, sp: addr(s), fp: Some(fp_now), module: funcs[next].module, func: Some(func_name(&world, &funcs[next])), tech: None, regs: vec![] });
                 cur = next;
             }
-            put(&mut words, s + 2 + rng.below(8), 0);
+            // one stack in five ENDS with the outermost return-address slot (no zero words behind it)
+            if !rng.chance(1, 5) {
+                put(&mut words, s + 2 + rng.below(8), 0);
+            }
         }
         _ => {
             let ip0 = { let f = &funcs[rng.below(funcs.len() as u64) as usize]; f.start + rng.below(f.size) };
@@ -383,7 +386,9 @@ fn gen_chain(rng: &mut Rng, tech: &str, arch: &str, os: &str) -> Option<String> 
                 s += junk + 1;
                 exp.push(Exp { ret, sp: addr(s), fp: None, module: funcs[k].module, func: Some(func_name(&world, &funcs[k])), tech: None, regs: vec![] });
             }
-            put(&mut words, s + 2 + rng.below(8), 0);
+            if !rng.chance(1, 5) {
+                put(&mut words, s + 2 + rng.below(8), 0);
+            }
         }
     }
     let mut bytes = vec![0u8; words.len() * p as usize];
@@ -1092,8 +1097,14 @@ fn gen_mixed(rng: &mut Rng, tech: &str, arch: &str, os: &str) -> Option<String> 
     // every stack address stored anywhere must be readable
     let hi = words.iter().filter_map(|w| if let Word::Addr(x) = w { Some(*x) } else { None }).max().unwrap_or(0);
     let hi = hi.max(match fp0 { Fp::Live(x) => x, _ => 0 });
-    let total = top.max(hi + 2) + 2 + rng.below(8);
-    put(&mut words, total - 1, Word::Val(0));
+    // usually some zero words follow; one stack in five ENDS where the generated frames end (the
+    // outermost return-address slot is the last word of the captured stack: the walk must end because
+    // the memory ends, and every word-sized read at `end - word` must still succeed)
+    let slack = if rng.chance(1, 5) { 0 } else { 2 + rng.below(8) };
+    let total = top.max(hi + 2) + slack;
+    if slack > 0 {
+        put(&mut words, total - 1, Word::Val(0));
+    }
     let len = total * p;
     let wide = p == 8;
     let mods_lo = world.mods.iter().map(|m| m.0).min().unwrap_or(0);
